@@ -76,7 +76,11 @@ class Lifecycle(core.Scenario):
     def build(self):
         p = self.params
         self.impl = p['impl']
-        w = self.world = cworld.make_client_world(self.impl, legacy_disconnect=bool(p.get('legacy')))
+        ckw = {}
+        if p.get('ws_timeout'):
+            # the application bounds the WebSocket connection attempt (websocket_extra_options of the threaded client)
+            ckw['client_kwargs'] = {'websocket_extra_options': {'timeout': p['ws_timeout']}}
+        w = self.world = cworld.make_client_world(self.impl, legacy_disconnect=bool(p.get('legacy')), **ckw)
         self.causes = []          # (party, step)
         self.delivered_steps = []
         self.msg_step = {}
@@ -547,6 +551,10 @@ def param_list(ctx):
         for tr, extra in ((['polling'], {'connect': 'open'}), (['websocket'], {'connect': '-', 'ws': ['accept', 'open']}),
                           (None, {'connect': 'open_up', 'ws': ['accept', 'probe_ok']})):
             ps.append(dict({'impl': impl, 'transports': tr, 'polls': ['ping', 'close'], 'spacing': 1.75, 'frac': True}, **extra))
+        # 4e. the threaded client with a connection timeout of its own for the WebSocket: the heartbeat timing is still the server's
+        if impl == 'sync':
+            for tr, extra in ((['websocket'], {'connect': '-', 'ws': ['accept', 'open']}), (None, {'connect': 'open_up', 'ws': ['accept', 'probe_ok']})):
+                ps.append(dict({'impl': impl, 'transports': tr, 'polls': ['ping', 'ping', 'close'], 'spacing': 1.375, 'ws_timeout': 0.25}, **extra))
         # 4d. an application written for the older API: a disconnect handler without a reason argument behind a pass-through decorator
         for tr, extra in ((['polling'], {'connect': 'open'}), (['websocket'], {'connect': '-', 'ws': ['accept', 'open']})):
             for seq, app in ((['msg', 'close'], []), (['msg'], ['disconnect']), (['err'], [])):
